@@ -48,6 +48,8 @@ class Obligation:
 
     @property
     def fqn(self):
+        if self.backend == "verus":
+            return "verus::" + self.harness
         # src/core.rs -> core::__verif::h ; src/a/b.rs -> a::b::__verif::h ; src/lib.rs -> __verif::h
         p = self.src_file
         assert p.startswith("src/") and p.endswith(".rs")
@@ -55,6 +57,9 @@ class Obligation:
         if parts[-1] in ("mod", "lib"):
             parts = parts[:-1]
         return "::".join(parts + ["__verif", self.harness])
+
+    def to_json_backend(self):
+        return self.backend
 
     def to_json(self):
         return {
@@ -152,3 +157,27 @@ def load_static(generated=None):
                 text = text.replace("//@include generated:%s" % k, v)
         obs += parse_contract_text(text, crate, src, path)
     return obs
+
+
+def load_verus():
+    import json
+    p = os.path.join(CONTRACTS, "verus", "obligations.json")
+    out = []
+    if not os.path.exists(p):
+        return out
+    with open(p) as fh:
+        for e in json.load(fh):
+            o = Obligation()
+            o.name = e["name"]
+            o.harness = e["fn"]
+            o.crate = "rbx_binary"
+            o.src_file = "src/core.rs"
+            o.contract_file = p
+            o.props = e["props"]
+            o.fns = e["fns"]
+            o.kind = "complete"
+            o.backend = "verus"
+            o.note = e.get("note", "")
+            o.checks = "full"
+            out.append(o)
+    return out
